@@ -159,16 +159,22 @@ impl<T> InFlightBuffers<T> {
     }
 
     fn mark_in_flight(&mut self, index: usize) {
+        #[cfg(feoxdb_verif)]
+        crate::verif::emit("ubq", &[], self as *const Self as u64, index as u64, 0);
         self.in_flight |= 1 << index;
     }
 
     fn mark_unqueued(&mut self, index: usize) {
+        #[cfg(feoxdb_verif)]
+        crate::verif::emit("ubu", &[], self as *const Self as u64, index as u64, 0);
         self.in_flight &= !(1 << index);
     }
 
     fn mark_complete(&mut self, index: usize) -> bool {
         let mask = 1 << index;
         let was_in_flight = self.in_flight & mask != 0;
+        #[cfg(feoxdb_verif)]
+        crate::verif::emit("ubc", &[], self as *const Self as u64, index as u64, was_in_flight as u64);
         self.in_flight &= !mask;
         was_in_flight
     }
@@ -177,7 +183,17 @@ impl<T> InFlightBuffers<T> {
 #[cfg(any(target_os = "linux", test))]
 impl<T> Drop for InFlightBuffers<T> {
     fn drop(&mut self) {
+        #[cfg(feoxdb_verif)]
+        let verif_id = self as *const Self as u64;
         for (index, buffer) in self.buffers.iter_mut().enumerate() {
+            #[cfg(feoxdb_verif)]
+            crate::verif::emit(
+                "ubd",
+                &[],
+                verif_id,
+                index as u64,
+                (self.in_flight & (1 << index) != 0) as u64,
+            );
             if self.in_flight & (1 << index) != 0 {
                 // A failed io_uring_enter does not prove that the kernel released this pointer.
                 std::mem::forget(buffer.take());
@@ -865,6 +881,11 @@ impl DiskIO {
             let mut completed_count = 0;
 
             while completed_count < queued {
+                #[cfg(feoxdb_verif)]
+                if crate::verif::io_decide("uring_enter", 0, queued - completed_count) == 1 {
+                    use std::os::unix::io::AsRawFd;
+                    crate::verif::break_ring_fd(self.ring.as_ref().expect("io_uring checked above").as_raw_fd());
+                }
                 let wait_result = self
                     .ring
                     .as_mut()
